@@ -50,6 +50,7 @@ def reviewed : List ((String × String × String) × Class × String) := [
   (("model/task.rs", "fn with_env_eval", "im::HashMap"), Class.lookupOnly, "flattened env: get/contains_key (and collect into another map)"),
   (("nested_env/expand.rs", "fn expand", "im::HashMap"), Class.lookupOnly, "flattened env: get/contains_key (and collect into another map)"),
   (("nested_env/expand.rs", "fn expand_eval", "im::HashMap"), Class.lookupOnly, "flattened env: get/contains_key (and collect into another map)"),
+  (("nested_env/expand.rs", "fn expand_keep_escapes", "im::HashMap"), Class.lookupOnly, "flattened env: get/contains_key (and collect into another map)"),
   (("nested_env/expand.rs", "fn expand_recursive", "im::HashMap"), Class.lookupOnly, "flattened env: get/contains_key (and collect into another map)"),
   (("nested_env/mod.rs", "fn expand_envkey", "im::HashMap"), Class.lookupOnly, "flattened env: get/contains_key (and collect into another map)"),
   (("nested_env/mod.rs", "fn flatten", "im::HashMap"), Class.lookupOnly, "flattened env: get/contains_key (and collect into another map)"),
